@@ -569,6 +569,14 @@ macro_rules! parse_digits_checked {
                     $no_multi_digit,
                     false
                 );
+                // `small` counted the digits it parsed on its own. A format with
+                // digit separators in another component tracks the number of
+                // parsed digits, not the cursor: hand them over to our iterator.
+                if !small.is_contiguous() {
+                    for _ in 0..small.current_count() {
+                        $iter.increment_count();
+                    }
+                }
             }
         }
 
